@@ -57,6 +57,11 @@ func merge(logs types.ChangeLogSlice) types.ChangeLogSlice {
 	// 缓存merge后的changelog
 	result := make(types.ChangeLogSlice, 0)
 	for _, log := range logs {
+		// A self-destruct wipes the account. The change logs behind it must not be merged into the logs in front of it, or replaying the merged logs
+		// applies them before the self-destruct and loses them (e.g. LEMO which the address receives later in the block)
+		if log.LogType == SuicideLog {
+			typeMap = make(map[types.ChangeLogType]map[interface{}]int)
+		}
 		// 判断是否需要merge,如果不需要merge则直接保存到结果数组中
 		if !needMerge(log.LogType) {
 			// 不需要merge的changelog就直接按照顺序push到数组中
